@@ -372,6 +372,7 @@ func runC15(c *fw.Check) {
 		fw.Fatalf("C15 needs the treegen table (build through ./check)")
 	}
 	c.Rule = "catalogue module with every instruction and terminator kind (kinds listed from the CURRENT source by go/types; a kind without an instance is a machinery error) in all variants of optional operands and list lengths 0,1,2 (args, bundles x inputs, incomings, cases, clauses, handlers, indices, targets), parsed by asm, plus constructor-built terminators/instructions whose argument slices are later mutated by the caller. For EVERY user: Operands() == set of value-typed slots found by reflection (before and after list-element replacement / reallocation), a uniquely named same-typed replacement written through EVERY slot changes exactly that one occurrence in LLString(), changes the text of NO other instruction of the function (every instruction of the catalogue has a textual twin in its function) and restores, Succs() == printed branch targets in order and inside the function (also after writing another block through every target slot); for EVERY value of every function, substituting it through the slots of all users leaves no occurrence. distinct = (user, slot, oracle)."
+	c15purity(c, c15twinned(c15text), "")
 	m := c15parse()
 	us := c15users(m)
 	seenKinds := map[string]int{}
@@ -528,14 +529,50 @@ func runC15(c *fw.Check) {
 	c.Sample(map[string]interface{}{"user": "%r10 = call i32 @f1(i32 %a) [ \"tag\"(i32 %b, float %x), \"other\"(i1 %c) ]", "oracles": []string{"Operands()==reflective slots", "write REPLi through slot i changes exactly one token", "substitute-all leaves no use"}})
 }
 
+// c15purity: on a fresh parse of text, Operands() and Succs() are called (twice) on every user in
+// order and nothing else; the module must then print exactly like another fresh parse that was
+// never queried, and every terminator's successors must still be its printed targets. (A query that
+// writes into storage shared with a NEIGHBOUR leaves both views of the neighbour consistent with
+// each other -- only the comparison with an unqueried module shows it.)
+func c15purity(c *fw.Check, text, tag string) {
+	mq, e1, p1 := parseTry(text)
+	mr, e2, p2 := parseTry(text)
+	if e1+p1+e2+p2 != "" {
+		return
+	}
+	us := c15users(mq)
+	if p := fw.Try(func() {
+		for round := 0; round < 2; round++ {
+			for _, u := range us {
+				_ = u.user.Operands()
+				if u.term != nil {
+					_ = u.term.Succs()
+				}
+			}
+		}
+	}); p != "" {
+		c.Violation("query-panics"+tag, c15case{What: "Operands()/Succs() panics on a parsed module: " + p})
+		return
+	}
+	var a, b string
+	if p := fw.Try(func() { a, b = mq.String(), mr.String() }); p != "" {
+		return
+	}
+	c.Case("purity|"+tag+"|"+fmt.Sprint(len(text)), fmt.Sprint(a == b))
+	if a != b {
+		c.Violation("query-changes-module"+tag, c15case{What: "calling Operands() and Succs() on every instruction and terminator of a freshly parsed module changed what the module prints", Inst: firstDiff(b, a)})
+		return
+	}
+	for _, u := range us {
+		c15checkSuccs(c, u, tag+"/after-queries")
+	}
+}
+
 // c15generated runs the slot / write-through / successor oracles on EVERY user of EVERY generated
 // catalogue variant (widened type universe), not only on the fixed catalogue module.
 func c15generated(c *fw.Check) {
 	gen.SetWide()
-	bound := 1
-	if !c.Quick() {
-		bound = 2
-	}
+	bound := 2
 	if c.Deep() {
 		bound = 3
 	}
@@ -557,6 +594,7 @@ func c15generated(c *fw.Check) {
 				}
 				return
 			}
+			c15purity(c, gen.Module(vs), "/generated")
 			us := c15users(m)
 			n := 0
 			for _, u := range us {
